@@ -82,8 +82,9 @@ int main() {
   O(Message_version_, Message, version_); O(Message_code_, Message, code_);
   O(Connection_control, Header::Connection, control_); O(Expect_expectation, Header::Expect, expectation_); S(HdrConnection, Header::Connection); S(HdrEncoding, Header::EncodingHeader); S(HdrExpect, Header::Expect); S(HdrContentLength, Header::ContentLength);
   printf("#define VP_CC_CLOSE %d\n#define VP_CC_KEEPALIVE %d\n#define VP_CC_EXT %d\n#define VP_EXPECT_CONTINUE %d\n#define VP_EXPECT_EXT %d\n", (int)ConnectionControl::Close, (int)ConnectionControl::KeepAlive, (int)ConnectionControl::Ext, (int)Expectation::Continue, (int)Expectation::Ext);
+  printf("#define VP_ENC_CHUNKED %d\n", (int)Header::Encoding::Chunked);
   printf("#define VP_ENC_VALUES %d,%d,%d,%d,%d,%d\n", (int)Header::Encoding::Gzip, (int)Header::Encoding::Compress, (int)Header::Encoding::Deflate, (int)Header::Encoding::Identity, (int)Header::Encoding::Chunked, (int)Header::Encoding::Unknown);
-  O(ResponseStream_buf, ResponseStream, buf_); O(ResponseStream_transport, ResponseStream, transport_); S(ResponseStream, ResponseStream);
+  O(ResponseStream_response, ResponseStream, response_); O(ResponseStream_buf, ResponseStream, buf_); O(ResponseStream_transport, ResponseStream, transport_); S(ResponseStream, ResponseStream);
   O(CacheControl_directives, Header::CacheControl, directives_); S(CacheDirective, CacheDirective); O(CacheDirective_directive, CacheDirective, directive_);
   printf("#define VP_CD_MAXAGE %d\n#define VP_CD_MAXSTALE %d\n#define VP_CD_MINFRESH %d\n#define VP_CD_SMAXAGE %d\n#define VP_CD_EXT %d\n", (int)CacheDirective::MaxAge, (int)CacheDirective::MaxStale, (int)CacheDirective::MinFresh, (int)CacheDirective::SMaxAge, (int)CacheDirective::Ext);
   printf("#define SIZEOF_WriteDeque %zu\n", sizeof(std::deque<Tcp::Transport::WriteEntry>));
